@@ -148,6 +148,13 @@ func pass1(j job) (res result) {
 				}
 			}
 		}
+		for _, otx := range out.orderTxs {
+			for _, tx := range p.Block.Transactions {
+				if bytes.Equal(tx, otx) {
+					w.pair = append(w.pair, orderIDHex(tx))
+				}
+			}
+		}
 		rec.Order = w.lastOrder
 		if other != nil && bytes.Equal(other.Block.BlockHeader.Hash, hdr.Hash) {
 			other = nil // the recipe added nothing: there is no different block to speculate on
@@ -239,7 +246,7 @@ func pass1(j job) (res result) {
 	}
 	if len(res.Blocks) > 0 {
 		last := res.Blocks[len(res.Blocks)-1]
-		res.Key, res.OK = fmt.Sprintf("%d|%s|%s", w.A.Height(), last.StateKey, w.lastOrder != ""), true
+		res.Key, res.OK = fmt.Sprintf("%d|%s|%s|%d", w.A.Height(), last.StateKey, w.lastOrder != "", len(w.pair)), true
 	} else {
 		res.Key, res.OK = "genesis", true
 	}
